@@ -557,6 +557,13 @@ def check_fmap(res, rng):
         ok, sub = guarded("getitem-slice", lambda: fm[a:b], ab=(a, b))
         if ok:
             decide("getitem-slice", fmodel(sub) == m[a:b], nt, ab=(a, b), got=fmodel(sub), exp=m[a:b])
+        # bounds the way Python slices take them: negative, None, beyond the ends (clamped, never wrapped)
+        lo_ = rng.choice([None, -len(m) - rng.randint(1, 4), -rng.randint(1, len(m)), rng.randint(0, len(m)), len(m) + 2])
+        hi_ = rng.choice([None, -len(m) - rng.randint(1, 4), -rng.randint(1, len(m)), rng.randint(0, len(m)), len(m) + 2])
+        if len(m[lo_:hi_]) > 0 or rng.random() < 0.5:
+            ok, sub = guarded("getitem-slice-python-bounds", lambda: fm[lo_:hi_], ab=(lo_, hi_))
+            if ok:
+                decide("getitem-slice-python-bounds", fmodel(sub) == m[lo_:hi_], ("below-minus-len" if any(x is not None and x < -len(m) for x in (lo_, hi_)) else "other",) + struct[:2], ab=(lo_, hi_), got=fmodel(sub), exp=m[lo_:hi_])
         k = rng.randint(1, 3)
         cuts = sorted(rng.sample(range(len(m) + 1), min(len(m) + 1, 2 * k)))
         sp2 = [(cuts[i], cuts[i + 1]) for i in range(0, len(cuts) - 1, 2)]
